@@ -15,6 +15,7 @@ pub const T_HTTP: u32 = 8; // request/response text: head lines, blank line, (JS
 pub const T_BYTES: u32 = 16; // the API under test takes bytes: invalid UTF-8 is a legitimate input
 pub const T_MXC: u32 = 32;
 pub const T_ANCHOR: u32 = 64; // push-rule edit script
+pub const T_GLOB: u32 = 128; // `pattern \n value` for glob / word matching
 
 pub const BYTE_KINDS: [&str; 6] = ["bitflip", "delete", "insert", "truncate", "dup_span", "splice"];
 const JSON_KINDS: [&str; 5] = ["json_delete_member", "json_dup_member", "json_type_swap", "json_long_string", "json_nest"];
@@ -55,6 +56,9 @@ pub fn struct_kinds(traits: u32) -> Vec<&'static str> {
     }
     if traits & T_MXC != 0 {
         v.push("mxc_long_host");
+    }
+    if traits & T_GLOB != 0 {
+        v.push("glob_repeat");
     }
     if traits & T_HTML != 0 {
         v.push("html_nest");
@@ -187,6 +191,25 @@ pub fn apply(kind: &str, traits: u32, data: &mut Vec<u8>, other: &[u8], t: &mut 
             let len = 250 + t.below(11) as usize;
             let host: String = (0..len).map(|i| alnum[i % alnum.len()]).collect();
             *data = format!("mxc://{host}/{media}").into_bytes();
+            true
+        }
+        "glob_repeat" => {
+            // a long pattern with many wildcards (patterns come from push rules, i.e. from account data)
+            let split = data.iter().position(|&c| c == b'\n').unwrap_or(data.len());
+            let pat: Vec<u8> = if split == 0 { b"a*".to_vec() } else { data[..split].to_vec() };
+            let target = [64usize, 255, 1024, 8192, 30_000, 60_000][t.index(6)];
+            let mut long: Vec<u8> = Vec::with_capacity(target + pat.len());
+            let unit: Vec<u8> = match t.below(4) {
+                0 => b"?".to_vec(),
+                1 => b"a*".to_vec(),
+                _ => pat.clone(),
+            };
+            while long.len() < target {
+                long.extend_from_slice(&unit);
+            }
+            let rest = data[split..].to_vec();
+            *data = long;
+            data.extend_from_slice(&rest);
             true
         }
         "multipart_part" => {
